@@ -368,7 +368,11 @@ fn check_poly<S: Fl>(orc: &mut Oracle, cx: &Ctxt, poly: &Poly<S>) {
         }
     }
     let split_allow = cx.tol * 1.2 * 1.01 + ROUND * cx.eps * cx.curve.mag().max(1e-30);
+    // quadratics: the closed-form approximations of the parabola integral and of its inverse are
+    // accurate to a few percent only, and so is the count: matched while ≤ 1.25·tol + rounding
+    let approx_allow = cx.tol * 1.25 + ROUND * cx.eps * cx.curve.mag().max(1e-30);
     let class = match cx.tol_class() {
+        "generic" if k == "quad" && worst <= approx_allow => "approx-integral",
         "generic" if k == "cubic" && worst <= split_allow => "tolerance-split",
         c => c,
     };
